@@ -1,6 +1,6 @@
 #!/bin/bash
 # usage: tools_seed.sh <name>...   confirm a seeded change in a scratch worktree and store it under /verif/seeded/<name>/
-WT=/tmp/wt/confirm
+WT=${WT:-/tmp/wt/confirm}
 cd /repo
 [ -d $WT ] || git worktree add -q --detach $WT HEAD
 cd $WT && git checkout -q --detach $(git -C /repo rev-parse HEAD) && git checkout -- . 
